@@ -6,6 +6,8 @@ package main
 
 import (
 	"fmt"
+	"os"
+	"go/ast"
 	"go/token"
 	"go/types"
 	"sort"
@@ -53,6 +55,9 @@ type Exec struct {
 	faulty    bool // C15 mode: dependency calls may fail
 	extUsed   map[string]bool
 	returned  int // number of completed return paths in the unit
+	keepLen    bool
+	heapDefs   map[string]heapDef
+	initialHeaps map[string]string
 	totalSteps int
 	stepBudget int
 	budgetHit  bool
@@ -73,6 +78,13 @@ type Frame struct {
 	cutLoops map[int]*loopCut
 	contract *Contract
 	prefix  string // obligation-name prefix for inlined frames
+	names   map[string]nameRef // source variable name -> current SSA value (from DebugRef)
+	curLoop *Loop
+}
+
+type nameRef struct {
+	v    ssa.Value
+	addr bool
 }
 
 type deferred struct {
@@ -103,6 +115,12 @@ func (fr *Frame) copy() *Frame {
 		n.cutLoops[k] = v
 	}
 	n.parent = fr.parent.copy()
+	if fr.names != nil {
+		n.names = make(map[string]nameRef, len(fr.names))
+		for k, v := range fr.names {
+			n.names[k] = v
+		}
+	}
 	return &n
 }
 
@@ -418,6 +436,7 @@ func (x *Exec) enter(st *State, fr *Frame, from, to *ssa.BasicBlock) {
 	pv := phiVals()
 	for ph, v := range pv {
 		fr.vals[ph] = v
+		x.bindPhiName(fr, ph)
 	}
 	x.runBlock(st, fr, to, len(pv))
 }
@@ -556,6 +575,12 @@ func (x *Exec) step(st *State, fr *Frame, instr ssa.Instruction) {
 	case *ssa.Phi:
 		// handled in enter
 	case *ssa.DebugRef:
+		if id, ok := in.Expr.(*ast.Ident); ok {
+			if fr.names == nil {
+				fr.names = map[string]nameRef{}
+			}
+			fr.names[id.Name] = nameRef{v: in.X, addr: in.IsAddr}
+		}
 	case *ssa.MakeMap:
 		fr.vals[in] = OpaqueV{"map"}
 		x.note("MakeMap (out of subset)")
@@ -802,7 +827,7 @@ func (x *Exec) typeAssert(st *State, fr *Frame, in *ssa.TypeAssert) Val {
 		return res
 	}
 	// symbolic interface
-	x.w.Decl("(declare-fun g_dyn (Int) Int)")
+	dynDecl(x)
 	okT := tEq(app("g_dyn", iv.Sym), num(x.typeTag(in.AssertedType)))
 	if isInterface(in.AssertedType) {
 		okT = st.fresh("implements", SBool)
@@ -1241,13 +1266,11 @@ func (x *Exec) loopHavoc(st *State, fr *Frame, lp *Loop) {
 		val, ok := rootOf(v)
 		if !ok {
 			// address computed inside the loop from unknown root: by type
-			if pt, ok := v.Type().Underlying().(*types.Pointer); ok {
+			if _, ok := v.Type().Underlying().(*types.Pointer); ok {
 				root := rootStructOf(v)
 				if root != nil && isStructLike(root) {
-					heapSet[x.w.SortOf(root)] = true
-					return
+					return // heap effects come from the static effect analysis
 				}
-				_ = pt
 			}
 			// a loop-local alloc needs no havoc (fresh each iteration)
 			if isLoopLocal(v, lp) {
@@ -1260,8 +1283,6 @@ func (x *Exec) loopHavoc(st *State, fr *Frame, lp *Loop) {
 		case PtrV:
 			if p.Cell != nil {
 				cellSet[p.Cell] = true
-			} else if p.Ref != "" {
-				heapSet[p.RootSort] = true
 			}
 		case SliceV:
 			cellSet[p.Cell] = true
@@ -1284,11 +1305,25 @@ func (x *Exec) loopHavoc(st *State, fr *Frame, lp *Loop) {
 			}
 		}
 	}
-	f := x.loopEffects(lp)
+	f := x.loopEffects(fr.fn, lp)
+	if os.Getenv("VFY_DEBUG_FX") != "" {
+		fmt.Fprintf(os.Stderr, "loop %d of %s: full=%v targets=%v fresh=%v unknown=%v ghost=%v params=%v binds=%v\n", lp.ordinal, fr.fn.Name(), f.full, f.targets, f.fresh, f.unknown, f.ghost, f.params, f.binds)
+	}
 	ghostTouched = f.ghost || f.unknown
 	havocAllHeaps = f.unknown
-	for s := range f.old {
+	for s := range f.full {
 		heapSet[s] = true
+	}
+	// cells behind parameters / captured variables written by callees
+	for i := range f.params {
+		if i >= 0 && i < len(fr.fn.Params) {
+			markPtr(fr.fn.Params[i])
+		}
+	}
+	for i := range f.binds {
+		if i < len(fr.fn.FreeVars) {
+			markPtr(fr.fn.FreeVars[i])
+		}
 	}
 	if allCells {
 		for c := range st.cells {
@@ -1300,7 +1335,10 @@ func (x *Exec) loopHavoc(st *State, fr *Frame, lp *Loop) {
 			continue
 		}
 		old := st.cells[c]
+		_, isBacking := st.ghost[fmt.Sprintf("len:%d", c.id)]
+		x.keepLen = isBacking
 		st.cells[c] = x.havocLike(st, c.name, c.typ, old)
+		x.keepLen = false
 	}
 	if havocAllHeaps {
 		for h := range st.heaps {
@@ -1311,24 +1349,61 @@ func (x *Exec) loopHavoc(st *State, fr *Frame, lp *Loop) {
 		}
 	}
 	topAtEntry := st.top
+	// sorts written only through nameable references and/or objects allocated in the loop
+	partial := map[string]bool{}
+	for s := range f.targets {
+		partial[s] = true
+	}
 	for s := range f.fresh {
+		partial[s] = true
+	}
+	for s := range partial {
 		if heapSet[s] {
 			continue
 		}
-		// only objects allocated inside the loop are written: older objects keep their value
+		if strings.HasPrefix(s, "T_") && x.w.DTByName(s) == nil {
+			continue
+		}
+		var refs []string
+		okAll := true
+		for _, tv := range f.targets[s] {
+			val, ok := fr.vals[tv]
+			pv, isPtr := val.(PtrV)
+			if iv, isI := val.(IfaceV); isI && iv.Payload != nil {
+				pv, isPtr = iv.Payload.(PtrV)
+			}
+			if !ok || !isPtr {
+				okAll = false
+				break
+			}
+			if pv.Cell != nil || pv.Nil {
+				continue
+			}
+			if pv.Ref == "" {
+				okAll = false
+				break
+			}
+			refs = append(refs, pv.Ref)
+		}
+		if !okAll {
+			heapSet[s] = true
+			continue
+		}
 		oldH := st.heap(s)
-		delete(st.heaps, x.w.Heap(s))
-		newH := st.heap(s)
+		newH := st.havocHeap(s)
 		x.freshN++
 		r := fmt.Sprintf("q_r_%d", x.freshN)
-		st.assume(fmt.Sprintf("(forall ((%s Int)) (! (=> (< %s %s) (= (select %s %s) (select %s %s))) :pattern ((select %s %s))))", r, r, topAtEntry, newH, r, oldH, r, newH, r))
+		conds := []string{tCmp("<", r, topAtEntry)}
+		for _, t := range refs {
+			conds = append(conds, tNot(tEq(r, t)))
+		}
+		st.assume(fmt.Sprintf("(forall ((%s Int)) (! (=> %s (= (select %s %s) (select %s %s))) :pattern ((select %s %s))))", r, tAnd(conds...), newH, r, oldH, r, newH, r))
 	}
 	for s := range heapSet {
 		if strings.HasPrefix(s, "T_") && x.w.DTByName(s) == nil {
 			continue
 		}
-		delete(st.heaps, x.w.Heap(s))
-		st.heap(s)
+		st.havocHeap(s)
 	}
 	if ghostTouched {
 		for k, v := range st.ghost {
@@ -1343,7 +1418,7 @@ func (x *Exec) loopHavoc(st *State, fr *Frame, lp *Loop) {
 			}
 		}
 	}
-	if len(f.fresh) > 0 || len(f.old) > 0 || f.unknown {
+	if len(f.fresh) > 0 || len(f.full) > 0 || f.unknown {
 		st.advanceTop()
 	}
 }
@@ -1380,8 +1455,11 @@ func rootStructOf(v ssa.Value) types.Type {
 func (x *Exec) havocLike(st *State, hint string, t types.Type, old Val) Val {
 	switch o := old.(type) {
 	case SliceV:
-		// the window stays, contents of the backing cell are havocked separately
-		return o
+		// a loop-carried window: bounds become symbolic, the backing cell stays
+		lo := st.fresh(hint+"_lo", SInt)
+		hi := st.fresh(hint+"_hi", SInt)
+		st.assume(tAnd(tCmp("<=", "0", lo), tCmp("<=", lo, hi), tCmp("<=", hi, x.cellLen(st, o.Cell))))
+		return SliceV{Cell: o.Cell, Lo: lo, Hi: hi}
 	case ArrV:
 		n := ArrV{}
 		for i, e := range o.Elems {
@@ -1397,7 +1475,7 @@ func (x *Exec) havocLike(st *State, hint string, t types.Type, old Val) Val {
 		}
 		return n
 	case TV:
-		if _, isSlice := t.Underlying().(*types.Slice); isSlice {
+		if _, isSlice := t.Underlying().(*types.Slice); isSlice && x.keepLen {
 			// backing array of a make: keep the length
 			nv := st.fresh(hint, o.S)
 			st.assume(tEq(sLen(o.S, nv), sLen(o.S, o.E)))
@@ -1416,11 +1494,14 @@ func (x *Exec) havocLike(st *State, hint string, t types.Type, old Val) Val {
 }
 
 func (x *Exec) loopEntry(st *State, fr *Frame, lp *Loop, pv map[*ssa.Phi]Val) {
+	fr.curLoop = lp
+	defer func() { fr.curLoop = nil }()
 	c := fr.contract
 	name := fmt.Sprintf("loop%d", lp.ordinal)
 	// 1. invariants hold on entry
 	for ph, v := range pv {
 		fr.vals[ph] = v
+		x.bindPhiName(fr, ph)
 	}
 	var invs []*Clause
 	var dec *Clause
@@ -1448,6 +1529,7 @@ func (x *Exec) loopEntry(st *State, fr *Frame, lp *Loop, pv map[*ssa.Phi]Val) {
 		if _, isIface := fr.vals[ph].(IfaceV); isIface {
 			fr.vals[ph] = pv[ph]
 		}
+		x.bindPhiName(fr, ph)
 	}
 	// 3. assume invariants (+ automatic range-loop bounds)
 	if lp.rangeIdx != nil {
@@ -1481,6 +1563,18 @@ func (x *Exec) loopEntry(st *State, fr *Frame, lp *Loop, pv map[*ssa.Phi]Val) {
 	x.runBlock(st, fr, lp.header, nphi)
 }
 
+// bindPhiName: after a phi is (re)assigned, the source variable it stands for
+// currently has the phi's value.
+func (x *Exec) bindPhiName(fr *Frame, ph *ssa.Phi) {
+	if ph.Comment == "" || ph.Comment == "rangeindex" {
+		return
+	}
+	if fr.names == nil {
+		fr.names = map[string]nameRef{}
+	}
+	fr.names[ph.Comment] = nameRef{v: ph}
+}
+
 func phiName(ph *ssa.Phi) string {
 	if ph.Comment != "" {
 		return ph.Comment
@@ -1497,7 +1591,10 @@ func (x *Exec) loopBack(st *State, fr *Frame, lp *Loop, pv map[*ssa.Phi]Val) {
 	}
 	for ph, v := range pv {
 		fr.vals[ph] = v
+		x.bindPhiName(fr, ph)
 	}
+	fr.curLoop = lp
+	defer func() { fr.curLoop = nil }()
 	c := fr.contract
 	if c != nil {
 		for _, cl := range c.Loops[lp.ordinal] {
